@@ -57,7 +57,11 @@ func gPrologue(rt *rapid.T, p *wProg, chanPct, joinPct, p2pPct int) {
 	p.Ops = append(p.Ops, wOp{K: "sub", S: 0, T: kind})
 	for s := 1; s < len(p.Sess); s++ {
 		if gPct(rt, joinPct) {
-			p.Ops = append(p.Ops, wOp{K: "sub", S: s, T: "g0"})
+			ref := "g0"
+			if kind == "nch" && gPct(rt, 60) {
+				ref = "c0" // a channel reader
+			}
+			p.Ops = append(p.Ops, wOp{K: "sub", S: s, T: ref})
 		}
 	}
 	if gPct(rt, p2pPct) {
@@ -172,7 +176,11 @@ func c01Gen(rt *rapid.T) wProg {
 			p.Ops = append(p.Ops, wOp{K: "crash", N: gInt(rt, 1, 4, "k")}, pub())
 		case x < 96:
 			s := gInt(rt, 0, len(p.Sess)-1, "s")
-			p.Ops = append(p.Ops, wOp{K: "get", S: s, T: gTopicFor(rt, p.Sess[s], false), A: gPick(rt, []string{"data", "desc", "data desc"}, "what")})
+			gop := wOp{K: "get", S: s, T: gTopicFor(rt, p.Sess[s], false), A: gPick(rt, []string{"data", "desc", "data desc"}, "what")}
+			if strings.Contains(gop.A, "desc") && gPct(rt, 45) {
+				gop.H = map[string]any{"ims": gPick(rt, []string{"now", "now", "old"}, "ims")}
+			}
+			p.Ops = append(p.Ops, gop)
 		default:
 			p.Ops = append(p.Ops, wOp{K: "tick", N: gPick(rt, []int{50, 1000, 5000}, "ms")})
 		}
